@@ -69,9 +69,72 @@ func H_LexSegment() {
 	lexSegmentChecks(string(rtBytes("in", rtParam("N"))))
 }
 
+// refLexError is an independent reading of the token rules, for ASCII inputs only (known = false
+// otherwise): does the input contain a character that cannot start a token, a quote that is not
+// closed by the same quote character, or a regexp whose closing slash is missing?
+func refLexError(in string) (hasErr bool, known bool) {
+	for i := 0; i < len(in); i++ {
+		if in[i] >= 0x80 {
+			return false, false
+		}
+	}
+	alnum := func(c byte) bool {
+		return c == '_' || (c >= '0' && c <= '9') || (c >= 'a' && c <= 'z') || (c >= 'A' && c <= 'Z')
+	}
+	i := 0
+	for i < len(in) {
+		c := in[i]
+		switch {
+		case c == ' ' || c == '\t' || c == '\r' || c == '\n':
+			i++
+		case alnum(c) || c == '*' || c == '?' || c == '\\' || (c == '-' && i+1 < len(in) && in[i+1] >= '0' && in[i+1] <= '9'):
+			for i < len(in) {
+				w := in[i]
+				if w == '\\' {
+					i += 2 // the escaped character belongs to the word, whatever it is
+				} else if alnum(w) || w == '*' || w == '?' || w == '.' || w == '-' {
+					i++
+				} else {
+					break
+				}
+			}
+		case rtIn(c, "()[]{}:+=>~^<-"):
+			i++
+		case c == '"' || c == '\'':
+			j := i + 1
+			for j < len(in) && in[j] != c {
+				j++
+			}
+			if j >= len(in) {
+				return true, true
+			}
+			i = j + 1
+		case c == '/':
+			j := i + 1
+			for j < len(in) && in[j] != '/' {
+				if in[j] == '\\' {
+					j++
+				}
+				j++
+			}
+			if j >= len(in) {
+				return true, true
+			}
+			i = j + 1
+		default:
+			return true, true
+		}
+	}
+	return false, true
+}
+
 func lexSegmentChecks(in string) {
 	n := len(in)
 	rtObserve("in", in)
+	if refErr, known := refLexError(in); known && refErr {
+		_, perr := lucene.Parse(in)
+		rtAssert("ref-lex-error-fails-parse", perr != nil)
+	}
 	l, ref := lex.Lex(in), lex.Lex(in)
 	cur := 0
 	for i := 0; i <= n+1; i++ {
